@@ -101,7 +101,12 @@ impl Args {
 
         // generate configuration
         let env_vars = BTreeMap::from_iter(environment.iter().map(|(k, v)| (k as &str, v as &str)));
-        let (document_config, testcase_config) = if self.format == ParserType::Markdown {
+        // (under --cram-compat a Markdown document is read with the Cram
+        // defaults: the test is run with them and they are written out, so that
+        // the document reads back the same with and without that option)
+        let (document_config, testcase_config) = if self.format == ParserType::Markdown
+            && !self.global.cram_compat
+        {
             (
                 DocumentConfig::default_markdown(),
                 TestCaseConfig::default_markdown(),
